@@ -1081,6 +1081,37 @@ def module_cases(ck, idx0, rng, jc, stats, maxdepth, sk=None) -> list[Case]:
     return cases
 
 
+ALIAS_VARIANTS = (("step-view", 8, (0, 2, 1), (0, 2, 4)), ("expand-view", 4, (0, 2, 1), (0, 2, 0)), ("shifted-overlap-free", 8, (0, 3, 1), (4, 3, 1)))
+# (a transposed view of the same 2x2 buffer is NOT a case: source and destination partially overlap and torch refuses the copy loudly)
+
+
+def alias_load_case(var, nested: bool, store: bool):
+    """m holds a view of a buffer; the incoming state dict holds a DIFFERENTLY STRIDED view of the same buffer (same data_ptr for the
+    first three variants).  'Loading reproduces every tensor value in place': afterwards m's tensor (same object) holds what the incoming
+    tensor held when load_state_dict was called.  The heap model of StateDict.v has no strides, so this stream is decided on the
+    implementation against the clause directly."""
+    import torch
+    M = make_module_class()
+    name, n, dst, src = var
+    buf = torch.arange(1, n + 1, dtype=torch.float32)
+    mk = lambda v: torch.as_strided(buf, (v[1],) if isinstance(v[1], int) else v[1], (v[2],) if isinstance(v[2], int) else v[2], v[0])  # noqa: E731
+    t, inc = mk(dst), mk(src)
+    m = M()
+    m.t = t
+    holder = m
+    if nested:
+        holder = M()
+        holder.inner = {"k": [m]}
+    want = inc.clone()
+    sd = holder.state_dict(store_non_tensors=store)
+    path = sd
+    if nested:
+        path = sd["inner"]["k"][0]
+    path["t"] = inc
+    holder.load_state_dict(sd, store_non_tensors=store)
+    return m.t is t, bool(torch.equal(m.t, want)), m.t.tolist(), want.tolist()
+
+
 def gen_pstate_skel(rng, depth):
     n = rng.randint(1, 4) if depth == 0 else rng.choice([0, 1, 2, 3])
     keys = []
@@ -1385,6 +1416,21 @@ def run(ck: Check) -> None:
                        "theorems_not_transferring": ["C16_unflatten_flatten", "C16_module_state_dict_complete", "C16_module_load_in_place", "C16_restore_roundtrip"]},
                       no_failing_input=True)
 
+    # ---- incoming tensors that alias the module's own storage with other strides (implementation against the clause directly)
+    n_alias = 0
+    for var in ALIAS_VARIANTS:
+        for nested in (False, True):
+            for store in (False, True):
+                n_alias += 1
+                try:
+                    same_obj, same_val, got, want = alias_load_case(var, nested, store)
+                except Exception as ex:  # noqa
+                    same_obj, same_val, got, want = False, False, repr(ex), None
+                if not (same_obj and same_val):
+                    ck.report(None, f"load_state_dict does not reproduce the incoming tensor value in place when it is a differently strided view of the module's own buffer "
+                                    f"({var[0]}, nested={nested}, store_non_tensors={store}): module tensor {got}, incoming held {want}, same object: {same_obj}",
+                              {"stream": "alias-load", "variant": var[0], "nested": nested, "store_non_tensors": store, "got": got, "want": want, "same_object": same_obj})
+
     # ---- evidence
     per_stream = {}
     for c in cases:
@@ -1426,6 +1472,8 @@ def run(ck: Check) -> None:
         "checker_failures": len(failing),
         # measured: number of generated cases (flat: inputs; module/restore: evaluations derived from such a skeleton) per input class
         "quantifier_audit": dict(sorted(stats.get("audit", {}).items())),
+        "alias_load_cases": n_alias,
+        "alias_load_rule": "incoming tensor = differently strided view (step, expand, shifted, transposed) of the module tensor's own buffer, top-level and nested, both store_non_tensors: decided on the implementation against the clause 'reproduces every tensor value in place' (the heap model has no strides)",
         "not_exercised": {
             "bool / float / None dict keys": "outside the property's domain ('string or integer keys'); json would also turn them into other types",
             "str keys with lone surrogates": "cannot be written into a UTF-8 case file; json.dumps escapes them like any non-ASCII character (exercised: BMP and astral characters)",
@@ -1470,6 +1518,10 @@ def replay(obj) -> bool:
             print("unflatten:", unflatten({k: other_value(*v) for k, v in obj["flat"]}))
         except Exception as ex:  # noqa
             print("raised", repr(ex), "recorded", obj.get("raised"))
+        return True
+    if st == "alias-load":
+        var = next(v for v in ALIAS_VARIANTS if v[0] == obj["variant"])
+        print("same object, same value, module tensor, incoming value:", alias_load_case(var, obj["nested"], obj["store_non_tensors"]), "recorded", obj.get("got"))
         return True
     M = make_module_class()
     if st == "sd":
